@@ -790,7 +790,12 @@ def run(tier, rep):
                 etb = [tuple(x) for x in e.get('tb') or []]
                 gtb = [tuple(x) for x in g.get('tb') or []]
                 stats['tb_frames_compared'] += len(etb)
-                if len(gtb) < len(etb):
+                if len(gtb) < len(etb) and 'raise-e' in vec_taint(p, vecs[last] if last < len(vecs) else ()) and gtb == etb[:len(gtb)] and gtb:
+                    # 'raise e' of a previously caught instance: CPython appends the entries of the instance's EARLIER traceback
+                    # (the original raise site) after the frame of the re-raising statement. The property demands the line of the
+                    # raising statement and of every active call - exactly the prefix gpython reports - so this is not a deviation.
+                    stats['raise_e_prefix_tolerance_used'] = stats.get('raise_e_prefix_tolerance_used', 0) + 1
+                elif len(gtb) < len(etb):
                     devs.append('tb-shorter')
                 elif len(gtb) > len(etb):
                     devs.append('tb-longer')
